@@ -178,3 +178,9 @@ add("C12",
                 found_hwires.add(hwire_inside)""", """            if hwire_inside and hwire_inside.parent not in found_hwires:
                 found_hwires.add(hwire_inside.parent)"""), "closure yield hwire_inside"),
 )
+
+add("C11",
+    Mutant("H7b queried instances are kept out of the ancestor set (seeded C11-w3A)",
+           (H, "                    if parent_inst not in bound:", "                    if parent_inst not in bound and parent_inst not in instances:"),
+           "H7b|spydrnet/util/hierarchical_reference.py:HRef.get_all_hrefs_of_instances|ancestor skipped"),
+)
